@@ -7,8 +7,8 @@ META = {'title': 'Play, stop and rewind behave like a cassette deck for every co
                    'rustzx-core/src/zx/tape/empty.rs (Empty: no tape inserted; trivial, not modelled)',
                    'rustzx-core/src/emulator/mod.rs (play_tape, stop_tape, rewind_tape forwarding) - exercised by the '
                    'system-level run'],
- 'assumptions': ['the Lean model ZxVerif/Model/Tape.lean is a hand transcription (both the code as found and the candidate '
-                 'repair C12-1); its agreement with the Rust code is checked by differential execution on every run',
+ 'assumptions': ['the Lean model ZxVerif/Model/Tape.lean is a hand transcription (both the code of the pinned commit and the '
+                 'repaired code); its agreement with the Rust code is checked by differential execution on every run',
                  'the cassette-deck spec advances with the same sampling rule as the machine (a pulse that has run out is '
                  'replaced by the next one on the following call), so that refinement is an exact equality of edge '
                  'streams; that this sampling keeps every pulse within nominal..nominal+32 T is C11',
@@ -18,15 +18,15 @@ META = {'title': 'Play, stop and rewind behave like a cassette deck for every co
  'design_ref': 'DESIGN.md section 8, C12; Appendix E "C12 deck"; section 9 #10',
  'technique': 'Lean 4 proof: simulation relation between the tape model and a cassette deck (cursor into the nominal pulse '
               'list), preserved by every command, by induction over command histories on top of the C11 firing chain; '
-              'negations for the code as found by concrete witness histories; tied to the code by exact edge-stream '
+              'negations for the code of the pinned commit by concrete witness histories; tied to the code by exact edge-stream '
               'correspondence under command histories and by real-ROM loads after scripted deck commands',
  'level_text': 'Refinement theorem in Lean 4 for all finite histories over {play, stop, rewind, advance n} and all '
-               'well-formed tapes: the repaired tape model (proposed_fixes/C12-1.diff) and the cassette-deck spec agree on '
+               'well-formed tapes: the tape model of the repaired code (fix commit dbf1abb in /repo) and the cassette-deck spec agree on '
                'EAR level and running/stopped after every command (so stopped = frozen, stop..play resumes exactly, rewind '
-               'and end of tape restart with a clean pilot). For the code as found the refinement is proved for histories '
+               'and end of tape restart with a clean pilot). For the code of the pinned commit the refinement is proved for histories '
                'avoiding the three stale-state paths and refuted by witness histories (stop;stop;play, rewind while '
-               'playing, play after end of tape following an earlier stop) - known findings. The model is tied to the '
+               'playing, play after end of tape following an earlier stop) - findings recorded as fixed in known_findings.json. The model is tied to the '
                'Rust code on every run by a correspondence check over command histories (real Tap) and real-ROM loads.',
- 'level_note': COMMON_NOTE + ' Partial: for the unrepaired code the full refinement is false (open findings C12/*); the '
+ 'level_note': COMMON_NOTE + ' For the unrepaired code the full refinement is false (findings C12/*, fixed in /repo); its '
                'partial theorem covers histories without stop-while-stopped, without rewind, and not running off the end.',
  'timeout_s': {'quick': 900, 'thorough': 6 * 3600}}
